@@ -1,7 +1,7 @@
 From Coq Require Import ZArith Lia.
 From RsdnsModel Require Import Base GenConst GenCursor GenHeader GenSpec Cursor Names Labels Header Tracker RData Reader Writer.
 From RsdnsModel.Spec Require Import WireName LinearPass RDataWire.
-From RsdnsModel.Proofs Require Import CursorSafe ListN Bits WriterLayout RecordRT RDataRT ParseSpec RecordFull ReaderRefine MessageRT.
+From RsdnsModel.Proofs Require Import CursorSafe ListN Bits WriterLayout RecordRT RDataRT ParseSpec RecordFull ReaderRefine MessageRT RDataCompressed.
 From RsdnsModel.Properties Require Import C02.
 Open Scope N_scope.
 Check (C02_header_fields : forall msg, 12 <= lenN msg ->
@@ -61,4 +61,23 @@ Check (C02_standing_record_decodes : forall msg p x e c,
 Check (C02_whole_message_example : let q := mkSQ [(12, [x61])] 1 1 in
   let x := mkSR [(12, [x61])] 1 1 60 (A_A 16909060) in
   questions_stand example_msg 12 [q] 19 /\ records_stand example_msg 19 [x] 35 /\ lenN example_msg = 35).
-Print Assumptions C02_header_fields. Print Assumptions C02_flags. Print Assumptions C02_opt_fields. Print Assumptions C02_opt_do. Print Assumptions C02_a_record_roundtrip_plain. Print Assumptions C02_fixed_part_roundtrip. Print Assumptions C02_rdata_roundtrip_all_types. Print Assumptions C02_record_roundtrip. Print Assumptions C02_standing_items. Print Assumptions C02_whole_message_parsed. Print Assumptions C02_standing_record_decodes. Print Assumptions C02_whole_message_example.
+Check (C02_rdata_compressed_names : forall msg c p rd,
+  cwf msg c -> orig c = None -> pos c = p -> p + rd <= lim c ->
+  (forall ty ls, is_name_type ty = true -> name_in msg (p + rd) p ls (p + rd) ->
+     exists m, read_rdata msg ty rd = Some m /\ m c = (c_set_pos c (p + rd), Ok (RD_Name ty (join_labels (map snd ls))))) /\
+  (forall pref ls, pref < 65536 -> 2 <= rd -> subN msg p 2 = be_bytes 2 pref -> name_in msg (p + rd) (p + 2) ls (p + rd) ->
+     exists m, read_rdata msg T_MX rd = Some m /\ m c = (c_set_pos c (p + rd), Ok (RD_Mx pref (join_labels (map snd ls))))) /\
+  (forall ls1 ls2 r1, name_in msg (p + rd) p ls1 r1 -> name_in msg (p + rd) r1 ls2 (p + rd) ->
+     exists m, read_rdata msg T_MINFO rd = Some m /\
+               m c = (c_set_pos c (p + rd), Ok (RD_Minfo (join_labels (map snd ls1)) (join_labels (map snd ls2))))) /\
+  (forall ls1 ls2 r1 r2 s rf rt ex mi,
+     name_in msg (p + rd) p ls1 r1 -> name_in msg (p + rd) r1 ls2 r2 -> r2 + 20 = p + rd ->
+     s < 4294967296 -> rf < 4294967296 -> rt < 4294967296 -> ex < 4294967296 -> mi < 4294967296 ->
+     subN msg r2 4 = be_bytes 4 s -> subN msg (r2 + 4) 4 = be_bytes 4 rf -> subN msg (r2 + 8) 4 = be_bytes 4 rt ->
+     subN msg (r2 + 12) 4 = be_bytes 4 ex -> subN msg (r2 + 16) 4 = be_bytes 4 mi ->
+     exists m, read_rdata msg T_SOA rd = Some m /\
+               m c = (c_set_pos c (p + rd), Ok (RD_Soa (join_labels (map snd ls1)) (join_labels (map snd ls2)) s rf rt ex mi)))).
+Check (C02_rdata_compressed_example : name_in example_cname_msg 35 31 [(31, [x62]); (12, [x61])] 35 /\
+  exists m, read_rdata example_cname_msg T_CNAME 4 = Some m /\
+            m (c_with_pos example_cname_msg 31) = (c_with_pos example_cname_msg 35, Ok (RD_Name T_CNAME [x62; x2e; x61; x2e]))).
+Print Assumptions C02_header_fields. Print Assumptions C02_flags. Print Assumptions C02_opt_fields. Print Assumptions C02_opt_do. Print Assumptions C02_a_record_roundtrip_plain. Print Assumptions C02_fixed_part_roundtrip. Print Assumptions C02_rdata_roundtrip_all_types. Print Assumptions C02_record_roundtrip. Print Assumptions C02_standing_items. Print Assumptions C02_whole_message_parsed. Print Assumptions C02_standing_record_decodes. Print Assumptions C02_whole_message_example. Print Assumptions C02_rdata_compressed_names. Print Assumptions C02_rdata_compressed_example.
